@@ -2,11 +2,13 @@
 from __future__ import annotations
 
 import ast
+import re
 
 from ..cfg import CFG
 from ..engine import AnalysisError, MechanismMissing, PropertySpec, norm
 from ..pyutil import call_name, calls, is_name, walk_local
 from ._simplify import MODEL, passes
+from ._api import api_fn
 from .c18 import signature_lists
 
 GEN = "src/pymoca/backends/casadi/generator.py"
@@ -46,10 +48,10 @@ def r22_1(ctx, rep):
     rep.ob(R, site, "time", "self.time" in entries, "a duration depending on time must be rejected")
     for lst in want:
         if lst == "inputs":
-            ok = any("self.inputs" in e and "not x.fixed" in e.replace("not (x.fixed)", "not x.fixed") for e in entries)
+            ok = any("self.inputs" in e and re.search(r"for (\w+) in self\.inputs if not \(?\1\.fixed\)?", e) for e in entries)
             rep.ob(R, site, "non-fixed inputs", ok, "durations may depend on fixed inputs only: the table must contain the symbols of inputs with `not x.fixed`")
         else:
-            ok = any("self._symbols(self.%s)" % lst in e or "for x in self.%s" % lst in e for e in entries)
+            ok = any("self._symbols(self.%s)" % lst in e or re.search(r"for \w+ in self\.%s\b" % lst, e) for e in entries)
             rep.ob(R, site, lst, ok, "a duration depending on `%s` must be rejected, but the table does not contain them" % lst)
     for lst in ("constants", "parameters"):
         bad = any("self.%s)" % lst in e or "self.%s " % lst in e for e in entries)
@@ -57,7 +59,7 @@ def r22_1(ctx, rep):
     tv = table.targets[0].id
     durations = None
     for s in walk_local(fn):
-        if isinstance(s, ast.Assign) and isinstance(s.value, ast.Call) and "x.duration for x in self.delay_arguments" in norm(s.value):
+        if isinstance(s, ast.Assign) and isinstance(s.value, ast.Call) and re.search(r"(\w+)\.duration for \1 in self\.delay_arguments", norm(s.value)):
             durations = s.targets[0].id
     ok = False
     for s in walk_local(fn):
@@ -70,7 +72,7 @@ def r22_1(ctx, rep):
 @SPEC.rule("R22.2", "must-call: every path of _compile_model to `return model` passes model._post_checks() after model.simplify(); transfer_model returns fresh models only from _compile_model")
 def r22_2(ctx, rep):
     R = "R22.2"
-    fn = ctx.func(API, "_compile_model", R)
+    fn = api_fn(ctx, "_compile_model", R)
     cfg = CFG(fn, R)
     simp = [x for x in cfg.stmts() if ".simplify(" in norm(x.ast)]
     checks = {x.id for x in cfg.stmts() if "._post_checks()" in norm(x.ast)}
@@ -85,7 +87,7 @@ def r22_2(ctx, rep):
         rep.ob(R, API + ":_compile_model", "post-check before `%s`" % norm(r.ast), w is None and w0 is None and bool(checks),
                "a compiled model must be simplified and then checked for inadmissible delay durations before it is returned",
                path=cfg.describe(w or w0) if (w or w0) else "")
-    fn = ctx.func(API, "transfer_model", R)
+    fn = api_fn(ctx, "transfer_model", R)
     n = 0
     for r in walk_local(fn):
         if isinstance(r, ast.Return):
@@ -139,10 +141,13 @@ def r22_4(ctx, rep):
         raise MechanismMissing(R, "delay translation not found in exitExpression")
     fn = ctx.func(GEN, "Generator.exitForEquation", R)
     t = [norm(s) for s in ast.walk(fn) if isinstance(s, (ast.Assign, ast.Expr))]
-    idx = [x for x in t if x.startswith("i = self.model.delay_states.index(")]
+    # the position of the delay state: `<i> = self.model.delay_states.index(...)`; the argument is read and replaced at <i>
+    ivars = [s_.targets[0].id for s_ in ast.walk(fn) if isinstance(s_, ast.Assign) and isinstance(s_.targets[0], ast.Name)
+             and norm(s_.value).startswith("self.model.delay_states.index(")]
+    iv = ivars[0] if ivars else "?"
     rep.ob(R, GEN + ":Generator.exitForEquation", "argument replaced at the state's index",
-           bool(idx) and any(x.startswith("self.model.delay_arguments[i] = DelayArgument(") for x in t)
-           and any(x.startswith("delay_symbol = self.model.delay_arguments[i]") for x in t),
+           bool(ivars) and any(x.startswith("self.model.delay_arguments[%s] = DelayArgument(" % iv) for x in t)
+           and any(x.split(" = ", 1)[-1] == "self.model.delay_arguments[%s]" % iv for x in t),
            "inside a for-loop the reshaped DelayArgument must replace the entry at the index of its delay state")
     fn = ctx.func(MODEL, "Model._expand_vectors", R)
     t = [norm(s) for s in ast.walk(fn) if isinstance(s, (ast.Assign, ast.Expr))]
